@@ -11,8 +11,14 @@ def run(ctx):
     tf = ctx.trace_path("paths")
     ctx.drive("path_run", [tf, ctx.tier, ctx.seed])
     ctx.validate("Trace_Path", "Trace_Path.cfg", tf)
+    # the series-representation simulator of a two-dimensional Levy copula process
+    ctx.design("MC_Series", "Series_quick.cfg", constants="24 affine streams x Poisson counts 0..3 x 0..3 x 4 date sets", coverage=False)
+    ts = ctx.trace_path("series")
+    ctx.drive("series_run", [ts, ctx.tier, ctx.seed])
+    ctx.validate("Trace_Series", "Trace_Series.cfg", ts)
     ctx.assumptions += [
         "random sources are scripted (jump counts, jump times, jump sizes / state increments, the j-th normal increment is j)",
         "times are multiples of 1/8, product-date gaps perfect squares, sizes multiples of the lattice unit: all values exact",
-        "direct, Markov-chain and coupled ONE-DIMENSIONAL simulators and both refinement functions; copula simulators not yet driven",
+        "direct, Markov-chain, copula (2-d, 3-d), coupled and series-representation simulators and both refinement functions",
+        "series simulator: copula inverse conditional distribution and inverse tail integrals are integer stand-ins installed on the real model object (Series.tla Inv / Ivt); uniform date grids",
     ]
